@@ -1,3 +1,836 @@
-From Coq Require Import ZArith List Lia.
+(* C20_Proofs.v — lemmas and full proofs for the sub-filesystem confinement model. *)
+From Coq Require Import ZArith List Bool Lia Arith.
 From PV Require Import C20.C20_Model.
-Lemma placeholder : True. Proof. exact I. Qed.
+Import ListNotations.
+Local Open Scope Z_scope.
+
+(* ================================================================== *)
+(** * A. strings *)
+
+Lemma str_eqb_eq a b : str_eqb a b = true <-> a = b.
+Proof.
+  unfold str_eqb. revert b. induction a as [|x a IH]; intros [|y b]; cbn; try (split; [discriminate|congruence]).
+  - tauto.
+  - specialize (IH b). destruct (Nat.eqb_spec (length a) (length b)) as [Hl|Hl]; cbn in *.
+    + destruct (Z.eqb_spec x y) as [->|Hxy]; cbn.
+      * rewrite IH. split; [intros ->; reflexivity | intros H; injection H; auto].
+      * split; [discriminate | intros H; injection H; intros; contradiction].
+    + split; [discriminate | intros H; injection H; intros; subst; contradiction].
+Qed.
+
+Lemma is_dot_iff n : is_dot n = true <-> n = [DOT].
+Proof. apply str_eqb_eq. Qed.
+Lemma is_dotdot_iff n : is_dotdot n = true <-> n = [DOT; DOT].
+Proof. apply str_eqb_eq. Qed.
+
+Lemma is_dot_false n : is_dot n = false <-> n <> [DOT].
+Proof. rewrite <- is_dot_iff. destruct (is_dot n); split; congruence. Qed.
+Lemma is_dotdot_false n : is_dotdot n = false <-> n <> [DOT; DOT].
+Proof. rewrite <- is_dotdot_iff. destruct (is_dotdot n); split; congruence. Qed.
+
+Lemma delta_cases n :
+  (n = [DOT] /\ delta n = 0) \/ (n = [DOT; DOT] /\ delta n = -1) \/
+  (n <> [DOT] /\ n <> [DOT; DOT] /\ delta n = 1).
+Proof.
+  unfold delta. destruct (is_dot n) eqn:E1.
+  - left. apply is_dot_iff in E1. auto.
+  - destruct (is_dotdot n) eqn:E2.
+    + right; left. apply is_dotdot_iff in E2. auto.
+    + right; right. apply is_dot_false in E1. apply is_dotdot_false in E2. auto.
+Qed.
+
+Lemma delta_range n : -1 <= delta n <= 1.
+Proof. destruct (delta_cases n) as [[_ H]|[[_ H]|[_ [_ H]]]]; lia. Qed.
+
+(* a proper name: what is pushed on the resolution stack *)
+Definition proper (n : str) : Prop := n <> [] /\ is_dot n = false /\ is_dotdot n = false.
+
+(* ================================================================== *)
+(** * B. split / components *)
+
+Lemma split_nonnil p : split p <> [].
+Proof.
+  destruct p as [|c p]; cbn; [discriminate|].
+  destruct (c =? SLASH); [discriminate|]. destruct (split p); discriminate.
+Qed.
+
+Lemma split_cons_slash p : split (SLASH :: p) = [] :: split p.
+Proof. cbn. reflexivity. Qed.
+
+Lemma components_slash p : components (SLASH :: p) = components p.
+Proof. unfold components. rewrite split_cons_slash. reflexivity. Qed.
+
+Definition no_slash (n : str) : Prop := Forall (fun c => c <> SLASH) n.
+
+(* a run of non-slash characters is glued to the first piece of what follows *)
+Lemma split_name n r : no_slash n ->
+  split (n ++ r) = match split r with h :: t => (n ++ h) :: t | [] => [n] end.
+Proof.
+  induction n as [|c n IH]; intros Hn; cbn [app].
+  - destruct (split r) eqn:E; [exfalso; eapply split_nonnil; eauto | reflexivity].
+  - inversion Hn as [|? ? Hc Hn']; subst. cbn [split].
+    destruct (Z.eqb_spec c SLASH) as [->|_]; [contradiction|].
+    rewrite (IH Hn'). destruct (split r) eqn:E; [exfalso; eapply split_nonnil; eauto | reflexivity].
+Qed.
+
+Lemma components_name n r : no_slash n -> n <> [] -> (r = [] \/ exists r', r = SLASH :: r') ->
+  components (n ++ r) = n :: components r.
+Proof.
+  intros Hn Hne Hr. unfold components. rewrite split_name by assumption.
+  destruct Hr as [->|[r' ->]].
+  - cbn. rewrite app_nil_r. destruct n; [contradiction|reflexivity].
+  - rewrite split_cons_slash. cbn [filter nonempty]. rewrite app_nil_r.
+    destruct n; [contradiction|reflexivity].
+Qed.
+
+Lemma split_app_slash a b : split (a ++ SLASH :: b) = split a ++ split b.
+Proof.
+  induction a as [|c a IH]; cbn [app].
+  - rewrite split_cons_slash. reflexivity.
+  - cbn [split]. destruct (c =? SLASH).
+    + rewrite IH. reflexivity.
+    + rewrite IH. destruct (split a) eqn:E; [exfalso; eapply split_nonnil; eauto | reflexivity].
+Qed.
+
+Lemma components_app_slash a b : components (a ++ SLASH :: b) = components a ++ components b.
+Proof. unfold components. rewrite split_app_slash, filter_app. reflexivity. Qed.
+
+Lemma components_trailing_slash a : components (a ++ [SLASH]) = components a.
+Proof. rewrite components_app_slash. unfold components at 2. cbn. apply app_nil_r. Qed.
+
+Lemma components_nonempty p c : In c (components p) -> c <> [].
+Proof. unfold components. rewrite filter_In. intros [_ H]. destruct c; [discriminate|discriminate]. Qed.
+
+Lemma components_no_slash p c : In c (components p) -> no_slash c.
+Proof.
+  unfold components. rewrite filter_In. intros [H _]. revert c H.
+  induction p as [|x p IH]; cbn [split]; intros c H.
+  - destruct H as [<-|[]]. constructor.
+  - destruct (Z.eqb_spec x SLASH) as [->|Hx].
+    + destruct H as [<-|H]; [constructor | auto].
+    + destruct (split p) as [|h t] eqn:E.
+      * destruct H as [<-|[]]. constructor; [assumption|constructor].
+      * destruct H as [<-|H].
+        -- constructor; [assumption|]. apply IH. left. reflexivity.
+        -- apply IH. right. assumption.
+Qed.
+
+(* size accounting: the pieces and the separators make up the string *)
+Lemma split_total p : (length (concat (split p)) + length (split p) = S (length p))%nat.
+Proof.
+  induction p as [|c p IH]; cbn [split]; [reflexivity|].
+  destruct (c =? SLASH).
+  - cbn. lia.
+  - destruct (split p) as [|h t] eqn:E; [exfalso; eapply split_nonnil; eauto|].
+    cbn in *. rewrite app_length in *. lia.
+Qed.
+
+Lemma filter_nonempty_le (l : list str) : (length (filter nonempty l) <= length (concat l))%nat.
+Proof.
+  induction l as [|h t IH]; cbn; [lia|]. rewrite app_length.
+  destruct h; cbn; lia.
+Qed.
+
+Lemma components_length p : (length (components p) <= length p)%nat.
+Proof.
+  unfold components. pose proof (split_total p). pose proof (filter_nonempty_le (split p)).
+  pose proof (split_nonnil p). destruct (split p); [contradiction|]. cbn in *. lia.
+Qed.
+
+(* ================================================================== *)
+(** * C. the iterator visits exactly [components path] *)
+
+Lemma skip_slashes_components p : components (skip_slashes p) = components p.
+Proof.
+  induction p as [|c p IH]; cbn [skip_slashes]; [reflexivity|].
+  destruct (Z.eqb_spec c SLASH) as [->|_]; [|reflexivity].
+  rewrite components_slash. exact IH.
+Qed.
+
+Lemma skip_slashes_length p : (length (skip_slashes p) <= length p)%nat.
+Proof.
+  induction p as [|c p IH]; cbn [skip_slashes]; [lia|].
+  destruct (c =? SLASH); cbn; lia.
+Qed.
+
+Lemma skip_slashes_head p : skip_slashes p = [] \/ exists c q, skip_slashes p = c :: q /\ c <> SLASH.
+Proof.
+  induction p as [|c p IH]; cbn [skip_slashes]; [left; reflexivity|].
+  destruct (Z.eqb_spec c SLASH) as [->|Hc]; [exact IH|]. right. eauto.
+Qed.
+
+Lemma take_name_spec p n r : take_name p = (n, r) ->
+  p = n ++ r /\ no_slash n /\ (r = [] \/ exists r', r = SLASH :: r').
+Proof.
+  revert n r. induction p as [|c p IH]; cbn [take_name]; intros n r H.
+  - injection H as <- <-. repeat split; [constructor|left; reflexivity].
+  - destruct (Z.eqb_spec c SLASH) as [->|Hc].
+    + injection H as <- <-. repeat split; [constructor|right; eauto].
+    + destruct (take_name p) as [n' r'] eqn:E. injection H as <- <-.
+      destruct (IH _ _ eq_refl) as (-> & Hn & Hr).
+      repeat split; [constructor; assumption | exact Hr].
+Qed.
+
+Lemma iter_set_components p :
+  let it := iter_set p in
+  if iter_at_end it then components p = []
+  else components p = it_view it :: components (it_rest it)
+       /\ (length (it_rest it) < length p)%nat.
+Proof.
+  destruct p as [|c0 p0]; [reflexivity|].
+  set (p := c0 :: p0). cbn zeta. unfold iter_set. fold p.
+  destruct (take_name (skip_slashes p)) as [n r] eqn:E.
+  destruct (take_name_spec _ _ _ E) as (Hq & Hn & Hr).
+  unfold iter_at_end. cbn [it_view it_rest].
+  pose proof (skip_slashes_components p) as Hc. pose proof (skip_slashes_length p) as Hl.
+  rewrite Hq in Hc, Hl.
+  destruct n as [|a n].
+  - (* the rest is all slashes: the view is empty *)
+    cbn [app] in Hq, Hc. destruct (skip_slashes_head p) as [H0|(c & q & H1 & Hne)].
+    + rewrite <- Hc, <- Hq, H0. reflexivity.
+    + destruct Hr as [->|[r' ->]]; [rewrite <- Hc; reflexivity|].
+      rewrite H1 in Hq. injection Hq as -> _. contradiction.
+  - split.
+    + rewrite <- Hc. apply components_name; [assumption|discriminate|assumption].
+    + rewrite app_length in Hl. unfold p in *. cbn [length it_rest] in *. lia.
+Qed.
+
+(* the loop as a fold over a component list *)
+Section Walk.
+  Variable step : Z -> str -> step_result.
+  Fixpoint walk (level : Z) (cs : list str) : lvres :=
+    match cs with
+    | [] => LvTrue
+    | c :: cs' =>
+      match step level c with
+      | ReturnFalse => LvFalse
+      | IntOverflow => LvOverflow
+      | Continue l' => walk l' cs'
+      end
+    end.
+
+  Lemma loop_walk fuel : forall p level, (length p < fuel)%nat ->
+    level_loop step fuel (iter_set p) level = walk level (components p).
+  Proof.
+    induction fuel as [|f IH]; intros p level Hf; [lia|].
+    pose proof (iter_set_components p) as H. cbn zeta in H.
+    cbn [level_loop]. destruct (iter_at_end (iter_set p)).
+    - rewrite H. reflexivity.
+    - destruct H as [-> Hl]. cbn [walk].
+      destruct (step level (it_view (iter_set p))); try reflexivity.
+      unfold iter_next. apply IH. lia.
+  Qed.
+End Walk.
+
+Lemma level_valid_walk path : level_valid path = walk level_step 0 (components path).
+Proof. unfold level_valid, iter_begin. apply loop_walk. lia. Qed.
+Lemma level_valid_prefix_walk path : level_valid_prefix path = walk level_step_prefix 0 (components path).
+Proof. unfold level_valid_prefix, iter_begin. apply loop_walk. lia. Qed.
+
+(* ================================================================== *)
+(** * D. one loop body = one [delta] *)
+
+Lemma incr_ok level : level + 1 <= INT_MAX -> incr level = Continue (level + 1).
+Proof. intros H. unfold incr. destruct (Z.ltb_spec INT_MAX (level + 1)); [lia|reflexivity]. Qed.
+
+Lemma is_dot_one a : is_dot [a] = (a =? DOT).
+Proof. unfold is_dot, str_eqb. cbn. rewrite andb_true_r. reflexivity. Qed.
+Lemma is_dotdot_two a b : is_dotdot [a; b] = (a =? DOT) && (b =? DOT).
+Proof. unfold is_dotdot, str_eqb. cbn. rewrite andb_true_r. reflexivity. Qed.
+
+Lemma delta_one a : delta [a] = if a =? DOT then 0 else 1.
+Proof. unfold delta. rewrite is_dot_one. destruct (a =? DOT); reflexivity. Qed.
+Lemma delta_two a b : delta [a; b] = if (a =? DOT) && (b =? DOT) then -1 else 1.
+Proof. unfold delta. rewrite is_dotdot_two. unfold is_dot, str_eqb. cbn. reflexivity. Qed.
+Lemma delta_long a b c n : delta (a :: b :: c :: n) = 1.
+Proof. unfold delta, is_dot, is_dotdot, str_eqb. cbn. reflexivity. Qed.
+
+Lemma slen_cons a n : slen (a :: n) = 1 + slen n.
+Proof. unfold slen. cbn [length]. lia. Qed.
+Lemma slen_nonneg n : 0 <= slen n.
+Proof. unfold slen. lia. Qed.
+
+(* the repaired loop body in terms of delta *)
+Lemma level_step_delta level name : name <> [] ->
+  level_step level name =
+    if delta name =? 0 then Continue level
+    else if delta name =? -1 then (if level - 1 <? 0 then ReturnFalse else Continue (level - 1))
+    else incr level.
+Proof.
+  intros Hne. destruct name as [|a [|b [|c n]]]; [contradiction| | |].
+  - rewrite delta_one. unfold level_step, char_at. cbn [nth]. rewrite slen_cons. unfold slen. cbn [length].
+    cbn. destruct (a =? DOT); reflexivity.
+  - rewrite delta_two. unfold level_step, char_at. cbn [nth]. unfold slen. cbn [length].
+    cbn. destruct (a =? DOT); destruct (b =? DOT); reflexivity.
+  - rewrite delta_long. unfold level_step, char_at. cbn [nth].
+    rewrite !slen_cons. pose proof (slen_nonneg n).
+    destruct (Z.ltb_spec 0 (1 + (1 + (1 + slen n)))); [|lia].
+    destruct (Z.eqb_spec (1 + (1 + (1 + slen n))) 1); [lia|].
+    destruct (Z.eqb_spec (1 + (1 + (1 + slen n))) 2); [lia|].
+    cbn. destruct (a =? DOT); reflexivity.
+Qed.
+
+(* the pre-fix loop body: its increment is at most delta, its decrement is exact *)
+Definition delta_prefix (name : str) : Z :=
+  match name with
+  | [a] => 0
+  | [a; b] => if (a =? DOT) && (b =? DOT) then -1 else 0
+  | a :: _ :: _ :: _ => if a =? DOT then 1 else 0
+  | [] => 0
+  end.
+
+Lemma level_step_prefix_delta level name :
+  level_step_prefix level name =
+    if delta_prefix name =? 0 then Continue level
+    else if delta_prefix name =? -1 then (if level - 1 <? 0 then ReturnFalse else Continue (level - 1))
+    else incr level.
+Proof.
+  destruct name as [|a [|b [|c n]]].
+  - reflexivity.
+  - unfold level_step_prefix, char_at, delta_prefix. cbn [nth]. unfold slen. cbn [length]. cbn.
+    destruct (a =? DOT); reflexivity.
+  - unfold level_step_prefix, char_at, delta_prefix. cbn [nth]. unfold slen. cbn [length]. cbn.
+    destruct (a =? DOT); destruct (b =? DOT); reflexivity.
+  - unfold level_step_prefix, char_at, delta_prefix. cbn [nth].
+    rewrite !slen_cons. pose proof (slen_nonneg n).
+    destruct (Z.ltb_spec 0 (1 + (1 + (1 + slen n)))); [|lia].
+    destruct (Z.eqb_spec (1 + (1 + (1 + slen n))) 1); [lia|].
+    destruct (Z.eqb_spec (1 + (1 + (1 + slen n))) 2); [lia|].
+    destruct (a =? DOT); reflexivity.
+Qed.
+
+Lemma delta_prefix_le name : delta_prefix name <= delta name /\ (delta name = -1 -> delta_prefix name = -1).
+Proof.
+  destruct name as [|a [|b [|c n]]].
+  - cbn. unfold delta, is_dot, is_dotdot, str_eqb. cbn. lia.
+  - rewrite delta_one. cbn. destruct (a =? DOT); lia.
+  - rewrite delta_two. cbn. destruct ((a =? DOT) && (b =? DOT)); lia.
+  - rewrite delta_long. cbn. destruct (a =? DOT); lia.
+Qed.
+
+(* ================================================================== *)
+(** * E. the whole validator = the specification walk *)
+
+Lemma walk_level_step cs : forall level,
+  Forall (fun c => c <> []) cs -> 0 <= level -> level + Z.of_nat (length cs) <= INT_MAX ->
+  walk level_step level cs = if stays_inside_from level cs then LvTrue else LvFalse.
+Proof.
+  induction cs as [|c cs IH]; intros level Hne H0 Hmax; [reflexivity|].
+  inversion Hne as [|? ? Hc Hcs]; subst.
+  cbn [walk stays_inside_from]. rewrite (level_step_delta level c Hc).
+  cbn [length] in Hmax. rewrite Nat2Z.inj_succ in Hmax.
+  destruct (delta_cases c) as [[_ Hd]|[[_ Hd]|[_ [_ Hd]]]]; rewrite Hd; cbn [Z.eqb].
+  - replace (level + 0) with level by lia.
+    destruct (Z.ltb_spec level 0); [lia|]. apply IH; [assumption|lia|lia].
+  - replace (level + -1) with (level - 1) by lia.
+    destruct (Z.ltb_spec (level - 1) 0); [reflexivity|]. apply IH; [assumption|lia|lia].
+  - rewrite incr_ok by lia. destruct (Z.ltb_spec (level + 1) 0); [lia|]. apply IH; [assumption|lia|lia].
+Qed.
+
+Lemma components_all_nonempty p : Forall (fun c => c <> []) (components p).
+Proof. apply Forall_forall. intros c. apply components_nonempty. Qed.
+
+(* Path::level_valid on any string shorter than 2^31: no fuel exhaustion, no int overflow,
+   and the answer is exactly "every component prefix stays at depth >= 0" *)
+Lemma level_valid_spec path : slen path <= INT_MAX ->
+  level_valid path = if stays_inside (components path) then LvTrue else LvFalse.
+Proof.
+  intros H. rewrite level_valid_walk. unfold stays_inside.
+  apply walk_level_step; [apply components_all_nonempty|lia|].
+  pose proof (components_length path). unfold slen in H. unfold str in *. lia.
+Qed.
+
+(* pre-fix validator: whatever it accepts the specification accepts (it was safe; it only
+   under-counted the depth) *)
+Lemma delta_prefix_range name : -1 <= delta_prefix name <= 1.
+Proof.
+  destruct name as [|a [|b [|c n]]]; cbn; try lia.
+  - destruct ((a =? DOT) && (b =? DOT)); lia.
+  - destruct (a =? DOT); lia.
+Qed.
+
+Lemma walk_prefix_sound cs : forall l l',
+  0 <= l <= l' -> walk level_step_prefix l cs = LvTrue -> stays_inside_from l' cs = true.
+Proof.
+  induction cs as [|c cs IH]; intros l l' Hle H; [reflexivity|].
+  cbn [walk stays_inside_from] in *. rewrite level_step_prefix_delta in H.
+  pose proof (delta_prefix_le c) as [Hd1 Hd2]. pose proof (delta_range c) as Hr.
+  pose proof (delta_prefix_range c) as Hpr.
+  destruct (Z.eqb_spec (delta_prefix c) 0) as [E0|E0].
+  - assert (0 <= delta c) by (destruct (Z.eq_dec (delta c) (-1)) as [E|E]; [specialize (Hd2 E)|]; lia).
+    destruct (Z.ltb_spec (l' + delta c) 0); [lia|]. apply (IH l); [lia|exact H].
+  - destruct (Z.eqb_spec (delta_prefix c) (-1)) as [E1|E1].
+    + destruct (Z.ltb_spec (l - 1) 0); [discriminate|].
+      destruct (Z.ltb_spec (l' + delta c) 0); [lia|]. apply (IH (l - 1)); [lia|exact H].
+    + assert (delta c = 1) by lia. unfold incr in H.
+      destruct (Z.ltb_spec INT_MAX (l + 1)); [discriminate|].
+      destruct (Z.ltb_spec (l' + delta c) 0); [lia|]. apply (IH (l + 1)); [lia|exact H].
+Qed.
+
+Lemma level_valid_prefix_sound path :
+  level_valid_prefix path = LvTrue -> stays_inside (components path) = true.
+Proof. rewrite level_valid_prefix_walk. apply walk_prefix_sound. lia. Qed.
+
+(* ================================================================== *)
+(** * F. [stays_inside] = every prefix of the component list has depth >= 0 *)
+
+Lemma stays_inside_from_iff cs : forall s, 0 <= s ->
+  (stays_inside_from s cs = true <-> forall k, 0 <= s + depth (firstn k cs)).
+Proof.
+  induction cs as [|c cs IH]; intros s Hs.
+  - split; [|reflexivity]. intros _ k. rewrite firstn_nil. cbn. lia.
+  - cbn [stays_inside_from]. split.
+    + intros H k. destruct (Z.ltb_spec (s + delta c) 0) as [|Hl]; [discriminate|].
+      destruct k as [|k]; cbn [firstn depth]; [lia|].
+      pose proof (proj1 (IH _ Hl) H k). lia.
+    + intros H. pose proof (H 1%nat) as H1. cbn [firstn depth] in H1.
+      destruct (Z.ltb_spec (s + delta c) 0) as [|Hl]; [lia|].
+      apply (IH _ Hl). intros k. specialize (H (S k)). cbn [firstn depth] in H. lia.
+Qed.
+
+Lemma stays_inside_iff cs : stays_inside cs = true <-> forall k, 0 <= depth (firstn k cs).
+Proof. unfold stays_inside. rewrite stays_inside_from_iff by lia. reflexivity. Qed.
+
+Lemma stays_inside_firstn cs k : stays_inside cs = true -> stays_inside (firstn k cs) = true.
+Proof.
+  rewrite !stays_inside_iff. intros H j. rewrite firstn_firstn. apply H.
+Qed.
+
+(* ================================================================== *)
+(** * G. PathCat *)
+
+Definition legal_b (fs : subfs) (path : str) : bool :=
+  (slen path + base_path_len fs <? PATH_MAX - 2) && stays_inside (components path).
+Definition fwd_of (fs : subfs) (path : str) : parg :=
+  if legal_b fs path then PStr (base_path fs ++ path) else PNull.
+
+Lemma base_len_pos fs : base_path fs <> [] -> 0 < base_path_len fs.
+Proof. unfold base_path_len, slen. destruct (base_path fs); [contradiction|]. cbn [length]. lia. Qed.
+
+(* total functional characterisation of PathCat for a confining (non-empty) base *)
+Lemma pathcat_spec fs path : base_path fs <> [] -> pathcat fs path = PcOk (fwd_of fs path).
+Proof.
+  intros Hb. pose proof (base_len_pos fs Hb) as Hpos. unfold pathcat, fwd_of, legal_b.
+  destruct (Z.eqb_spec (base_path_len fs) 0); [lia|].
+  destruct (Z.leb_spec (PATH_MAX - 2) (slen path + base_path_len fs)) as [Hge|Hlt].
+  - destruct (Z.ltb_spec (slen path + base_path_len fs) (PATH_MAX - 2)); [lia|]. reflexivity.
+  - destruct (Z.ltb_spec (slen path + base_path_len fs) (PATH_MAX - 2)); [|lia]. cbn [andb].
+    rewrite level_valid_spec by (unfold PATH_MAX, INT_MAX in *; lia).
+    destruct (stays_inside (components path)); reflexivity.
+Qed.
+
+Lemma pathcat_empty_base fs path : base_path fs = [] -> pathcat fs path = PcOk (PStr path).
+Proof. intros H. unfold pathcat, base_path_len. rewrite H. reflexivity. Qed.
+
+(* ================================================================== *)
+(** * H. lexical resolution *)
+
+Lemma resolve_from_app abs cs1 : forall S cs2,
+  resolve_from abs S (cs1 ++ cs2) = resolve_from abs (resolve_from abs S cs1) cs2.
+Proof.
+  induction cs1 as [|c cs1 IH]; intros S cs2; [reflexivity|].
+  cbn [app resolve_from]. destruct (is_dot c); [apply IH|].
+  destruct (is_dotdot c); [|apply IH].
+  destruct S as [|top rest]; [destruct abs; apply IH|].
+  destruct (is_dotdot top); apply IH.
+Qed.
+
+Lemma is_dot_DOT : is_dot [DOT] = true. Proof. reflexivity. Qed.
+Lemma is_dot_DOTDOT : is_dot [DOT; DOT] = false. Proof. reflexivity. Qed.
+Lemma is_dotdot_DOTDOT : is_dotdot [DOT; DOT] = true. Proof. reflexivity. Qed.
+
+(* starting with |T| proper names on top of an arbitrary stack S, a component list that never
+   goes below the starting level only ever touches T: S is preserved underneath *)
+Lemma resolve_inside abs cs : forall T S,
+  Forall proper T -> Forall (fun c => c <> []) cs ->
+  stays_inside_from (Z.of_nat (length T)) cs = true ->
+  exists T', Forall proper T' /\ resolve_from abs (T ++ S) cs = T' ++ S /\
+             Z.of_nat (length T') = Z.of_nat (length T) + depth cs.
+Proof.
+  induction cs as [|c cs IH]; intros T S HT Hne Hin; unfold str in *.
+  - exists T. cbn. repeat split; [assumption|lia].
+  - inversion Hne as [|? ? Hc Hcs]; subst. cbn [stays_inside_from] in Hin.
+    destruct (Z.ltb_spec (Z.of_nat (length T) + delta c) 0) as [|Hl]; [discriminate|].
+    cbn [resolve_from depth].
+    destruct (delta_cases c) as [[-> Hd]|[[-> Hd]|(Hn1 & Hn2 & Hd)]]; rewrite Hd in *.
+    + rewrite is_dot_DOT.
+      replace (Z.of_nat (length T) + 0) with (Z.of_nat (length T)) in Hin by lia.
+      destruct (IH T S HT Hcs Hin) as (T' & H1 & H2 & H3). exists T'. repeat split; [assumption|assumption|lia].
+    + rewrite is_dot_DOTDOT, is_dotdot_DOTDOT.
+      destruct T as [|t T0]; [cbn [length] in Hl; lia|].
+      inversion HT as [|? ? Ht HT0]; subst. cbn [app]. destruct Ht as (_ & _ & Htdd). rewrite Htdd.
+      replace (Z.of_nat (length (t :: T0)) + -1) with (Z.of_nat (length T0)) in Hin by (cbn [length]; lia).
+      destruct (IH T0 S HT0 Hcs Hin) as (T' & H1 & H2 & H3). exists T'.
+      repeat split; [assumption|assumption|cbn [length]; lia].
+    + apply is_dot_false in Hn1. apply is_dotdot_false in Hn2. rewrite Hn1, Hn2.
+      assert (Hp : Forall proper (c :: T)) by (constructor; [repeat split; assumption|assumption]).
+      replace (Z.of_nat (length T) + 1) with (Z.of_nat (length (c :: T))) in Hin by (cbn [length]; lia).
+      change (c :: T ++ S) with ((c :: T) ++ S).
+      destruct (IH (c :: T) S Hp Hcs Hin) as (T' & H1 & H2 & H3). exists T'.
+      repeat split; [assumption|assumption|cbn [length] in H3; lia].
+Qed.
+
+Lemma is_abs_app_nonempty a b : a <> [] -> is_abs (a ++ b) = is_abs a.
+Proof. destruct a; [contradiction|reflexivity]. Qed.
+
+Definition inside_base (base fwd : str) : Prop :=
+  is_abs fwd = is_abs base /\
+  exists below, Forall proper below /\ resolve fwd = resolve base ++ below.
+
+(* B = b ++ "/" : everything forwarded as B ++ path with a path that stays inside resolves
+   to resolve(B) followed by proper names only *)
+Lemma resolve_confined b path :
+  stays_inside (components path) = true ->
+  exists below, Forall proper below /\
+    resolve ((b ++ [SLASH]) ++ path) = resolve (b ++ [SLASH]) ++ below /\
+    Z.of_nat (length below) = depth (components path).
+Proof.
+  intros Hin. unfold resolve.
+  rewrite is_abs_app_nonempty by (destruct b; discriminate).
+  set (abs := is_abs (b ++ [SLASH])).
+  rewrite <- app_assoc. cbn [app]. rewrite components_app_slash, components_trailing_slash.
+  rewrite resolve_from_app. set (S := resolve_from abs [] (components b)).
+  destruct (resolve_inside abs (components path) [] S (Forall_nil _) (components_all_nonempty path) Hin)
+    as (T' & H1 & H2 & H3).
+  cbn [app] in H2. rewrite H2. exists (rev T'). rewrite rev_app_distr. repeat split.
+  - apply Forall_rev. exact H1.
+  - rewrite rev_length. cbn [length] in H3. lia.
+Qed.
+
+(* the same for every prefix of the component list of the path: no intermediate step of the
+   resolution leaves the base either *)
+Lemma resolve_confined_prefix b path k :
+  stays_inside (components path) = true ->
+  exists below, Forall proper below /\
+    rev (resolve_from (is_abs (b ++ [SLASH])) [] (components (b ++ [SLASH]) ++ firstn k (components path)))
+    = resolve (b ++ [SLASH]) ++ below.
+Proof.
+  intros Hin. unfold resolve. set (abs := is_abs (b ++ [SLASH])).
+  rewrite resolve_from_app. set (S := resolve_from abs [] (components (b ++ [SLASH]))).
+  assert (Hne : Forall (fun c => c <> []) (firstn k (components path))).
+  { apply Forall_forall. intros c Hc. apply (components_nonempty path).
+    rewrite <- (firstn_skipn k (components path)). apply in_or_app. left. exact Hc. }
+  destruct (resolve_inside abs (firstn k (components path)) [] S (Forall_nil _) Hne
+              (stays_inside_firstn _ k Hin)) as (T' & H1 & H2 & _).
+  cbn [app] in H2. rewrite H2. exists (rev T'). rewrite rev_app_distr. split; [apply Forall_rev; exact H1|reflexivity].
+Qed.
+
+(* ================================================================== *)
+(** * I. SubFileSystem::init *)
+
+Lemma last_slash_split (b : str) : b <> [] -> last b 0 = SLASH -> exists b', b = b' ++ [SLASH].
+Proof.
+  intros Hne Hl. destruct (exists_last Hne) as (b' & a & ->). rewrite last_last in Hl. subst a. eauto.
+Qed.
+
+Lemma init_spec st base fs : base <> [] -> slen base < 4294967296 ->
+  subfs_init st base = InitOk fs ->
+  st = StatDir /\ slen base <= PATH_MAX - 2 /\
+  ((base_path fs = base /\ exists b', base = b' ++ [SLASH]) \/ base_path fs = base ++ [SLASH]).
+Proof.
+  intros Hne Hlen H. unfold subfs_init in H. destruct base as [|c0 b0] eqn:Eb; [contradiction|].
+  rewrite <- Eb in *. destruct st; try discriminate.
+  pose proof (slen_nonneg base) as Hnn.
+  rewrite Z.mod_small in H by lia.
+  destruct (Z.ltb_spec (PATH_MAX - 2) (slen base)); [discriminate|].
+  destruct (Z.eqb_spec (slen base) 0) as [E|_]; [discriminate|].
+  assert (Hall : firstn (Z.to_nat (slen base)) base = base).
+  { unfold slen. rewrite Nat2Z.id. apply firstn_all. }
+  rewrite Hall in H. split; [reflexivity|]. split; [assumption|].
+  destruct (Z.eqb_spec (last base 0) SLASH) as [El|_]; injection H as <-; cbn [base_path].
+  - left. split; [reflexivity|]. apply last_slash_split; [congruence|assumption].
+  - right. reflexivity.
+Qed.
+
+(* the stored base is non-empty, ends with '/', and names the same directory as the argument *)
+Lemma init_base st base fs : base <> [] -> slen base < 4294967296 ->
+  subfs_init st base = InitOk fs ->
+  exists b, base_path fs = b ++ [SLASH] /\ (base_path fs = base \/ base_path fs = base ++ [SLASH]) /\
+            is_abs (base_path fs) = is_abs base /\ resolve (base_path fs) = resolve base.
+Proof.
+  intros Hne Hlen H. destruct (init_spec _ _ _ Hne Hlen H) as (_ & _ & [[Hb (b' & Hb')]|Hb]).
+  - exists b'. rewrite Hb. repeat split; auto.
+  - exists base. rewrite Hb. repeat split; auto.
+    + apply is_abs_app_nonempty. assumption.
+    + unfold resolve. rewrite is_abs_app_nonempty by assumption. rewrite components_trailing_slash. reflexivity.
+Qed.
+
+Lemma init_empty_base st : subfs_init st [] = InitOk (mkSubfs []).
+Proof. reflexivity. Qed.
+
+(* ================================================================== *)
+(** * J. the user-level statements *)
+
+(* a path the property calls legal: within the length limit, every component prefix at depth >= 0 *)
+Definition legal (fs : subfs) (path : str) : Prop :=
+  slen path + base_path_len fs < PATH_MAX - 2 /\
+  forall k, 0 <= depth (firstn k (components path)).
+
+Lemma legal_b_iff fs path : legal_b fs path = true <-> legal fs path.
+Proof.
+  unfold legal_b, legal. rewrite andb_true_iff, Z.ltb_lt, stays_inside_iff. reflexivity.
+Qed.
+
+(* PathCat's result, as a relation between the argument and what the underlay receives *)
+Definition confined_arg (fs : subfs) (base path : str) (a : parg) : Prop :=
+  a = PNull \/
+  (a = PStr (base_path fs ++ path) /\
+   (forall k, 0 <= depth (firstn k (components path))) /\
+   inside_base base (base_path fs ++ path)).
+
+Lemma no_escape_lemma st base fs path fwd :
+  base <> [] -> slen base < 4294967296 ->
+  subfs_init st base = InitOk fs ->
+  pathcat fs path = PcOk (PStr fwd) ->
+    fwd = base_path fs ++ path
+    /\ (base_path fs = base \/ base_path fs = base ++ [SLASH])
+    /\ slen fwd < PATH_MAX - 2
+    /\ (forall k, 0 <= depth (firstn k (components path)))
+    /\ is_abs fwd = is_abs base
+    /\ exists below, Forall proper below /\ resolve fwd = resolve base ++ below
+                     /\ Z.of_nat (length below) = depth (components path).
+Proof.
+  intros Hne Hlen Hinit Hpc.
+  destruct (init_base _ _ _ Hne Hlen Hinit) as (b & Hb & Hor & Habs & Hres).
+  assert (Hbne : base_path fs <> []) by (rewrite Hb; destruct b; discriminate).
+  rewrite (pathcat_spec fs path Hbne) in Hpc. unfold fwd_of in Hpc.
+  destruct (legal_b fs path) eqn:El; [|discriminate]. injection Hpc as <-.
+  apply legal_b_iff in El. destruct El as [Hl Hd].
+  split; [reflexivity|]. split; [assumption|]. split.
+  { unfold slen, base_path_len, slen in *. rewrite app_length, Nat2Z.inj_add. lia. }
+  split; [assumption|]. split.
+  { rewrite is_abs_app_nonempty by assumption. exact Habs. }
+  apply stays_inside_iff in Hd. rewrite <- Hres, Hb.
+  destruct (resolve_confined b path Hd) as (below & H1 & H2 & H3). exists below. auto.
+Qed.
+
+Lemma no_escape_every_prefix_lemma st base fs path fwd k :
+  base <> [] -> slen base < 4294967296 ->
+  subfs_init st base = InitOk fs ->
+  pathcat fs path = PcOk (PStr fwd) ->
+  exists below, Forall proper below /\
+    rev (resolve_from (is_abs base) [] (components base ++ firstn k (components path)))
+    = resolve base ++ below.
+Proof.
+  intros Hne Hlen Hinit Hpc.
+  destruct (no_escape_lemma _ _ _ _ _ Hne Hlen Hinit Hpc) as (_ & _ & _ & Hd & _).
+  apply stays_inside_iff in Hd.
+  destruct (resolve_confined_prefix base path k Hd) as (below & H1 & H2).
+  rewrite components_trailing_slash, is_abs_app_nonempty in H2 by assumption.
+  exists below. split; [assumption|]. rewrite H2. unfold resolve.
+  rewrite is_abs_app_nonempty by assumption. rewrite components_trailing_slash. reflexivity.
+Qed.
+
+Lemma accepts_legal_lemma fs path :
+  base_path fs <> [] -> legal fs path ->
+  pathcat fs path = PcOk (PStr (base_path fs ++ path)).
+Proof.
+  intros Hb Hl. rewrite pathcat_spec by assumption. unfold fwd_of.
+  rewrite (proj2 (legal_b_iff fs path) Hl). reflexivity.
+Qed.
+
+Lemma rejects_illegal_lemma fs path :
+  base_path fs <> [] -> ~ legal fs path -> pathcat fs path = PcOk PNull.
+Proof.
+  intros Hb Hl. rewrite pathcat_spec by assumption. unfold fwd_of.
+  destruct (legal_b fs path) eqn:E; [apply legal_b_iff in E; contradiction|reflexivity].
+Qed.
+
+Lemma pathcat_never_stuck fs path : exists a, pathcat fs path = PcOk a.
+Proof.
+  destruct (base_path fs) eqn:E.
+  - eexists. apply pathcat_empty_base. assumption.
+  - eexists. apply pathcat_spec. congruence.
+Qed.
+
+Lemma fwd_of_confined st base fs path :
+  base <> [] -> slen base < 4294967296 -> subfs_init st base = InitOk fs ->
+  confined_arg fs base path (fwd_of fs path).
+Proof.
+  intros Hne Hlen Hinit.
+  destruct (init_base _ _ _ Hne Hlen Hinit) as (b & Hb & _).
+  assert (Hbne : base_path fs <> []) by (rewrite Hb; destruct b; discriminate).
+  pose proof (pathcat_spec fs path Hbne) as Hpc. unfold confined_arg.
+  destruct (fwd_of fs path) as [|f] eqn:E; [left; reflexivity|right].
+  destruct (no_escape_lemma _ _ _ _ _ Hne Hlen Hinit Hpc) as (-> & _ & _ & Hd & Habs & below & H1 & H2 & _).
+  split; [reflexivity|]. split; [assumption|]. split; [assumption|]. exists below. auto.
+Qed.
+
+(* every operation: what reaches the underlay *)
+Lemma run_op_spec xa fs o p1 p2 : base_path fs <> [] ->
+  run_op xa fs o p1 p2 =
+    match op_kind o with
+    | OneFs => Call o [fwd_of fs p1]
+    | OneXattr => if xa then Call o [fwd_of fs p1] else NoCall
+    | TwoBoth => Call o [fwd_of fs p1; fwd_of fs p2]
+    | TwoNew => Call o [PStr p1; fwd_of fs p2]
+    end.
+Proof.
+  intros Hb. unfold run_op. rewrite !(pathcat_spec fs _ Hb).
+  destruct (op_kind o); destruct xa; reflexivity.
+Qed.
+
+Lemma all_ops_confined_lemma st xa base fs o p1 p2 :
+  base <> [] -> slen base < 4294967296 -> subfs_init st base = InitOk fs ->
+  match run_op xa fs o p1 p2 with
+  | CallError _ => False
+  | NoCall => op_kind o = OneXattr /\ xa = false
+  | Call o' args =>
+    o' = o /\
+    match op_kind o with
+    | TwoBoth => exists a1 a2, args = [a1; a2] /\ confined_arg fs base p1 a1 /\ confined_arg fs base p2 a2
+    | TwoNew => exists a2, args = [PStr p1; a2] /\ confined_arg fs base p2 a2
+    | _ => exists a1, args = [a1] /\ confined_arg fs base p1 a1
+    end
+  end.
+Proof.
+  intros Hne Hlen Hinit.
+  destruct (init_base _ _ _ Hne Hlen Hinit) as (b & Hb & _).
+  assert (Hbne : base_path fs <> []) by (rewrite Hb; destruct b; discriminate).
+  rewrite (run_op_spec xa fs o p1 p2 Hbne).
+  pose proof (fwd_of_confined st base fs p1 Hne Hlen Hinit) as C1.
+  pose proof (fwd_of_confined st base fs p2 Hne Hlen Hinit) as C2.
+  destruct (op_kind o); [| | |destruct xa]; try (split; [reflexivity|]); eauto.
+Qed.
+
+Lemma all_ops_accept_legal_lemma xa fs o p1 p2 :
+  base_path fs <> [] ->
+  (op_kind o <> TwoNew -> legal fs p1) ->
+  (op_kind o = TwoBoth \/ op_kind o = TwoNew -> legal fs p2) ->
+  (op_kind o = OneXattr -> xa = true) ->
+  run_op xa fs o p1 p2 =
+    match op_kind o with
+    | TwoBoth => Call o [PStr (base_path fs ++ p1); PStr (base_path fs ++ p2)]
+    | TwoNew => Call o [PStr p1; PStr (base_path fs ++ p2)]
+    | _ => Call o [PStr (base_path fs ++ p1)]
+    end.
+Proof.
+  intros Hb H1 H2 Hx. rewrite run_op_spec by assumption. unfold fwd_of.
+  destruct (op_kind o) eqn:E.
+  - rewrite (proj2 (legal_b_iff fs p1)) by (apply H1; discriminate). reflexivity.
+  - rewrite (proj2 (legal_b_iff fs p1)) by (apply H1; discriminate).
+    rewrite (proj2 (legal_b_iff fs p2)) by (apply H2; auto). reflexivity.
+  - rewrite (proj2 (legal_b_iff fs p2)) by (apply H2; auto). reflexivity.
+  - rewrite (Hx eq_refl). rewrite (proj2 (legal_b_iff fs p1)) by (apply H1; discriminate). reflexivity.
+Qed.
+
+(* ================================================================== *)
+(** * K. the pre-fix validator: finding F1 *)
+
+(* "a/.." : 97 47 46 46 *)
+Lemma accepts_legal_prefix_refuted_lemma :
+  exists path, slen path < 10 /\ (forall k, 0 <= depth (firstn k (components path))) /\
+               level_valid_prefix path = LvFalse /\ level_valid path = LvTrue.
+Proof.
+  exists [97; 47; 46; 46]. split; [reflexivity|]. split.
+  - apply stays_inside_iff. vm_compute. reflexivity.
+  - split; vm_compute; reflexivity.
+Qed.
+
+(* the pre-fix validator never accepted an escaping path, and the repair only accepts more *)
+Lemma prefix_was_safe_lemma path :
+  level_valid_prefix path = LvTrue ->
+  (forall k, 0 <= depth (firstn k (components path))) /\
+  (slen path <= INT_MAX -> level_valid path = LvTrue).
+Proof.
+  intros H. apply level_valid_prefix_sound in H. split.
+  - apply stays_inside_iff. exact H.
+  - intros Hl. rewrite level_valid_spec by assumption. rewrite H. reflexivity.
+Qed.
+
+Lemma level_valid_total_lemma path : slen path <= INT_MAX ->
+  (level_valid path = LvTrue /\ (forall k, 0 <= depth (firstn k (components path)))) \/
+  (level_valid path = LvFalse /\ exists k, depth (firstn k (components path)) < 0).
+Proof.
+  intros Hl. rewrite level_valid_spec by assumption.
+  destruct (stays_inside (components path)) eqn:E.
+  - left. split; [reflexivity|]. apply stays_inside_iff. exact E.
+  - right. split; [reflexivity|].
+    (* a failing prefix exists: scan *)
+    assert (Hex : forall cs s, 0 <= s -> stays_inside_from s cs = false -> exists k, s + depth (firstn k cs) < 0).
+    { induction cs as [|c cs IH]; intros s Hs Hf; [discriminate|].
+      cbn [stays_inside_from] in Hf. destruct (Z.ltb_spec (s + delta c) 0) as [Hlt|Hge].
+      - exists 1%nat. cbn [firstn depth]. lia.
+      - destruct (IH _ Hge Hf) as [k Hk]. exists (S k). cbn [firstn depth]. lia. }
+    destruct (Hex _ 0 (Z.le_refl 0) E) as [k Hk]. exists k. lia.
+Qed.
+
+(* ================================================================== *)
+(** * L. examples (concrete states meeting the hypotheses; the unit-test paths; dot-names) *)
+From Coq Require Import String Ascii.
+Definition s (x : string) : str := map (fun a => Z.of_N (N_of_ascii a)) (list_ascii_of_string x).
+
+(* fs/test/test.cpp, TEST(Path, level_valid_ness): the four expectations hold for the repaired function *)
+Example unit_test_paths :
+  level_valid (s "/asdf/jkl/bmp/qwer/x.jpg") = LvTrue /\
+  level_valid (s "/x.jpg/../../x.jpg") = LvFalse /\
+  level_valid (s "asdf/../../x.jpg") = LvFalse /\
+  level_valid (s "../asdf") = LvFalse.
+Proof. vm_compute. repeat split. Qed.
+(* ... and held for the pre-fix function too (which is why the suite did not notice F1) *)
+Example unit_test_paths_prefix :
+  level_valid_prefix (s "/asdf/jkl/bmp/qwer/x.jpg") = LvTrue /\
+  level_valid_prefix (s "/x.jpg/../../x.jpg") = LvFalse /\
+  level_valid_prefix (s "asdf/../../x.jpg") = LvFalse /\
+  level_valid_prefix (s "../asdf") = LvFalse.
+Proof. vm_compute. repeat split. Qed.
+
+(* names that merely begin with dots are ordinary names: +1 *)
+Example dot_names_are_ordinary :
+  delta (s "...") = 1 /\ delta (s "..a") = 1 /\ delta (s ".a") = 1 /\ delta (s "a.") = 1 /\
+  delta (s ".") = 0 /\ delta (s "..") = -1 /\
+  level_valid (s ".../..") = LvTrue /\ level_valid (s "..a/..") = LvTrue /\ level_valid (s ".a/..") = LvTrue /\
+  level_valid (s ".../../..") = LvFalse /\ level_valid (s "..a/../..") = LvFalse /\
+  (* pre-fix: "..." and "..a" counted, ".a" and "a" did not *)
+  level_valid_prefix (s ".../..") = LvTrue /\ level_valid_prefix (s "..a/..") = LvTrue /\
+  level_valid_prefix (s ".a/..") = LvFalse /\ level_valid_prefix (s "a/..") = LvFalse /\
+  level_valid_prefix (s "a/b/../..") = LvFalse /\ level_valid_prefix (s "/a/../b") = LvFalse.
+Proof. vm_compute. repeat split. Qed.
+
+(* hypotheses of no_escape are satisfiable in a non-trivial way: base "/b" (gets its '/' appended),
+   a path that goes down, up and down again *)
+Example no_escape_hyps :
+  exists fs, subfs_init StatDir (s "/b") = InitOk fs /\ s "/b" <> [] /\ slen (s "/b") < 4294967296 /\
+             pathcat fs (s "a//./../c/") = PcOk (PStr (s "/b/a//./../c/")) /\
+             resolve (s "/b/a//./../c/") = [s "b"; s "c"] /\ resolve (s "/b") = [s "b"].
+Proof. eexists. vm_compute. repeat split; discriminate. Qed.
+(* relative base containing '..', and a base that already ends with '/' *)
+Example no_escape_hyps_relative :
+  exists fs, subfs_init StatDir (s "../b/") = InitOk fs /\ base_path fs = s "../b/" /\
+             pathcat fs (s "x/..") = PcOk (PStr (s "../b/x/..")) /\
+             pathcat fs (s "x/../..") = PcOk PNull /\
+             resolve (s "../b/x/..") = [s ".."; s "b"] /\ resolve (s "../b/") = [s ".."; s "b"].
+Proof. eexists. vm_compute. repeat split. Qed.
+(* hypotheses of accepts_legal *)
+Example accepts_legal_hyps :
+  base_path (mkSubfs (s "/b/")) <> [] /\ legal (mkSubfs (s "/b/")) (s "a/b/../..").
+Proof.
+  split; [discriminate|]. apply legal_b_iff. vm_compute. reflexivity.
+Qed.
+(* the two-path operations *)
+Example rename_example :
+  run_op true (mkSubfs (s "/b/")) Rename (s "a/..") (s "../x")
+  = Call Rename [PStr (s "/b/a/.."); PNull] /\
+  run_op true (mkSubfs (s "/b/")) Symlink (s "../../etc/passwd") (s "l")
+  = Call Symlink [PStr (s "../../etc/passwd"); PStr (s "/b/l")] /\
+  run_op false (mkSubfs (s "/b/")) Getxattr (s "a") [] = NoCall.
+Proof. vm_compute. repeat split. Qed.
+(* out of scope by design: an empty base confines nothing *)
+Example empty_base_confines_nothing :
+  exists fs, subfs_init StatFail [] = InitOk fs /\ pathcat fs (s "../../etc") = PcOk (PStr (s "../../etc")).
+Proof. eexists. vm_compute. repeat split. Qed.
+(* init failure modes *)
+Example init_failures :
+  subfs_init StatNotDir (s "/b") = InitFail /\ subfs_init StatFail (s "/b") = InitFail /\
+  subfs_init StatDir (repeat 97 4095) = InitFail /\
+  (exists fs, subfs_init StatDir (repeat 97 4094) = InitOk fs /\ base_path_len fs = 4095 /\
+              pathcat fs [] = PcOk PNull).
+Proof. vm_compute. repeat split. eexists. repeat split. Qed.
+
+(* the statement of accepts_legal with [legal] unfolded (used verbatim by C20_Properties.v) *)
+Lemma accepts_legal_unfolded fs path :
+  base_path fs <> [] ->
+  slen path + base_path_len fs < PATH_MAX - 2 ->
+  (forall k, 0 <= depth (firstn k (components path))) ->
+  pathcat fs path = PcOk (PStr (base_path fs ++ path)).
+Proof. intros Hb Hl Hd. apply accepts_legal_lemma; [exact Hb | split; [exact Hl | exact Hd]]. Qed.
